@@ -242,7 +242,7 @@ def run_item(item, tier):
     for k in range(1, len(elems) + 1):
         # the order in which the targets are listed is part of the input: all orders of up to three targets,
         # ascending and descending order of larger sets
-        if k <= 3:
+        if k <= (3 if n <= 4 else 2):
             tsets = list(itertools.permutations(elems, k))
         else:
             tsets = [c for comb in itertools.combinations(elems, k) for c in (comb, comb[::-1])]
@@ -319,7 +319,7 @@ def coverage(agg, tier):
         "evaluations": c.get("runs", 0),
         "distinct_nontrivial": len(agg["outcomes"]),
         "rule": "all DAGs on n<=%d topologically numbered elements x 2 encodings (one cells v(i) / one cells per "
-                "element) + input/uncached variants x all non-empty target sets, listed in every order (up to 3 targets; ascending and descending beyond) x all step sizes 1..n+1; "
+                "element) + input/uncached variants x all non-empty target sets, listed in every order (up to 3 targets, 2 when n = 5; ascending and descending beyond) x all step sizes 1..n+1; "
                 "distinct_nontrivial = number of distinct (action plan, final held set) outcomes observed; "
                 "runs in which at least one formula executed: %d" % (4 if tier == "quick" else 5, c.get("nontrivial", 0)),
         "exhaustive": True,
